@@ -425,6 +425,7 @@ def m_try_branch(ex, args, callee):
 
 def m_from_residual(ex, args, callee):
     r = args[0]
+    if not isinstance(r, Adt): raise Unsupported(f'from_residual of {r!r} in {callee}')
     if r.ty == 'Option': return ex.none()
     e = ex.payload(r)
     m = re.match(r'^<(?:std::result::)?Result<(.*)> as FromResidual<(?:std::result::)?Result<Infallible, (.*)>>>::from_residual$',
@@ -606,7 +607,8 @@ BASE_MODELS = [
     (r' as Into<.*>>::into$', None),      # placeholder replaced below (identity only for T: Into<T>)
     (r'^Arc::<.*>::clone$|Arc<.*> as Clone>::clone$', ident_ref), (r'Arc<.*> as Deref>::deref$|Box<.*> as Deref>::deref$|Box<.*> as DerefMut>::deref_mut$', m_smart_deref),
     (r'^Arc::<.*>::new$', lambda ex, a, c: Ref(Cell(a[0]))),
-    (r'^std::mem::drop::|^drop::', unit),
+    (r'^std::mem::drop::|^drop::| as Drop>::drop$|^std::ptr::drop_in_place::|^drop_in_place::', unit),
+    (r' as ToOwned>::to_owned$', ident),
     (r' as FnOnce<.*>>::call_once$| as FnMut<.*>>::call_mut$| as Fn<.*>>::call$', m_call_once),
     (r'Pin::<.*>::new_unchecked$|Pin::<.*>::new$', lambda ex, a, c: Adt('Pin', 0, {None: [Cell(a[0])]})),
     (r'Pin::<.*>::get_unchecked_mut$|Pin::<.*>::get_mut$|Pin::<.*>::as_mut$|Pin::<.*>::into_inner$', lambda ex, a, c: a[0].fields[None][0].v if isinstance(a[0], Adt) else dv(a[0]).fields[None][0].v),
